@@ -100,6 +100,7 @@ package logdb
 //@ extern github.com/lni/dragonboat/v4/internal/logdb/kv (s IKVStore) IterateValue
 //@ ghostset gIOFailed := old(gIOFailed) || result != nil
 //@ extern github.com/lni/dragonboat/v4/internal/logdb/kv (s IKVStore) GetValue
+//@ modifies captured(op)
 //@ ghostset gIOFailed := old(gIOFailed) || result != nil
 //@ extern github.com/lni/dragonboat/v4/internal/logdb/kv (s IKVStore) CommitWriteBatch
 //@ ghostset gIOFailed := old(gIOFailed) || result != nil
@@ -133,8 +134,92 @@ package logdb
 //@ trusted writes into the in-memory write batch only (no store I/O)
 //@ func (r *db) setMaxIndex [C10]
 //@ trusted writes into the in-memory write batch only (no store I/O)
+// recording entries cannot report an error, so a storage error met while recording (the batched
+// format reads the stored batch back to merge with it) must fail-stop, never be absorbed
 //@ func (r *db) saveEntries [C10]
-//@ trusted records entries into the write batch; store read errors inside it panic (fail-stop)
+//@ noframe
+//@ nobounds
+//@ requires r.entries != nil
+//@ modifies gIOFailed
+//@ ensures gIOFailed == old(gIOFailed)
+//@ loop 1 invariant gIOFailed == old(gIOFailed) && r.entries != nil
+
+//@ iface (em entryManager) record
+//@ ensures true
+
+//@ func (be *batchedEntries) record [C10]
+//@ noframe
+//@ nobounds
+//@ requires be.kvs != nil && be.keys != nil && be.cs != nil && ctx != nil && wb != nil
+//@ modifies gIOFailed
+//@ ensures gIOFailed == old(gIOFailed)
+//@ loop 1 invariant gIOFailed == old(gIOFailed) && be.kvs != nil && be.keys != nil && be.cs != nil && ctx != nil && wb != nil
+
+//@ func (be *batchedEntries) recordBatch [C10]
+//@ noframe
+//@ nobounds
+//@ requires be.kvs != nil && be.keys != nil && be.cs != nil && ctx != nil && wb != nil
+//@ modifies gIOFailed
+//@ ensures gIOFailed == old(gIOFailed)
+
+//@ func (be *batchedEntries) getMergedFirstBatch [C10]
+//@ noframe
+//@ nobounds
+//@ requires be.kvs != nil && be.keys != nil && be.cs != nil
+//@ modifies gIOFailed
+//@ ensures gIOFailed == old(gIOFailed)
+
+//@ func (be *batchedEntries) getLastBatch [C10]
+//@ noframe
+//@ nobounds
+//@ requires be.kvs != nil && be.keys != nil && be.cs != nil
+//@ modifies gIOFailed
+//@ ensures gIOFailed == old(gIOFailed)
+
+//@ func (be *batchedEntries) getBatchFromDB [C10]
+//@ noframe
+//@ nobounds
+//@ requires be.kvs != nil && be.keys != nil
+//@ modifies gIOFailed
+//@ ensures gIOFailed == old(gIOFailed)
+
+//@ func (pe *plainEntries) record [C10]
+//@ noframe
+//@ nobounds
+//@ requires ctx != nil && wb != nil
+//@ ensures gIOFailed == old(gIOFailed)
+//@ loop 1 invariant gIOFailed == old(gIOFailed) && ctx != nil && wb != nil
+
+// helpers without store I/O
+//@ func (p *keyPool) get [C10]
+//@ trusted sync.Pool
+//@ ensures result != nil
+//@ func (k *Key) Release [C10]
+//@ trusted sync.Pool
+//@ func (k *Key) SetEntryBatchKey [C10]
+//@ trusted writes the key buffer only
+//@ func (k *Key) SetEntryKey [C10]
+//@ trusted writes the key buffer only
+//@ func (k *Key) Key [C10]
+//@ trusted returns the key buffer
+//@ func (r *cache) getLastBatch [C10]
+//@ trusted in-memory cache bookkeeping
+//@ func (r *cache) setLastBatch [C10]
+//@ trusted in-memory cache bookkeeping
+//@ func getMergedFirstBatch [C10]
+//@ trusted in-memory merge of two batches (no store I/O)
+//@ func compactBatchFields [C10]
+//@ trusted in-memory (no store I/O)
+//@ func restoreBatchFields [C10]
+//@ trusted in-memory (no store I/O)
+//@ iface (c IContext) GetKey
+//@ ensures result != nil
+//@ iface (c IContext) GetValueBuffer
+//@ iface (c IContext) GetEntryBatch
+//@ iface (c IContext) GetLastEntryBatch
+//@ iface (k IReusableKey) SetEntryBatchKey
+//@ iface (k IReusableKey) SetEntryKey
+//@ iface (k IReusableKey) Key
 //@ func (r *db) getWriteBatch [C10]
 //@ trusted returns the context's or a new write batch
 //@ ensures result != nil
@@ -144,10 +229,10 @@ package logdb
 // If the underlying storage reports an error during a save, the save fails: it never returns success
 //@ func (r *db) saveRaftState [C10 C04]
 //@ noframe
-//@ requires r.kvs != nil && r.cs != nil
+//@ requires r.kvs != nil && r.cs != nil && r.entries != nil
 //@ modifies gIOFailed
 //@ ensures gIOFailed && !old(gIOFailed) ==> result != nil
-//@ loop 1 invariant gIOFailed == old(gIOFailed) && r.kvs != nil && r.cs != nil
+//@ loop 1 invariant gIOFailed == old(gIOFailed) && r.kvs != nil && r.cs != nil && r.entries != nil
 
 //@ func (r *db) saveSnapshots [C10 C16]
 //@ noframe
